@@ -25,7 +25,8 @@ from mc.env import error
 BOUNDS = {
     'quick': '4 writers x 4 destination states x 4 data x every single fault; all interleavings of two FileWriter / two '
              'PyFileWriter(pyCompile off) calls on an existing directory',
-    'thorough': 'every plan of <=2 faults; two writers also on an absent directory and with byte compilation',
+    'thorough': 'every plan of <=2 faults; two writers also on an absent directory and with byte compilation; two writers with '
+                'one fault at every position of every schedule with <=2 preemptions',
 }
 ASSUMPTIONS = ['failures are modelled as error returns / short counts of individual calls; power loss is outside the property',
                'two writers interleave at call granularity (each proxy call is atomic)']
@@ -289,4 +290,99 @@ class TwoWriters(object):
         return ('schedules=%d' % nsched[0], tuple(sorted(outcomes))), vs, (nsteps[0], nsched[0] - 1)
 
 
-FAMILIES = [SingleWriter(), DryRun(), TwoWriters()]
+class TwoWritersOneFault(object):
+    case_timeout = 1500
+    name = 'two-writers-one-fault'
+    describe = ('thorough: two concurrent putData() calls, every schedule with <=2 preemptions x every position of the interleaved '
+                'call trace x every fault kind of that call: destination = complete text of a writer that returned normally '
+                '(or the old content if none did), no temporary file left, only PySmiWriterError raised')
+
+    def blocks(self, tier):
+        if tier != 'thorough':
+            return []
+        return [{'w': 'file', 'dest': 'old-content'}, {'w': 'py.nocompile', 'dest': 'empty'}, {'w': 'file', 'dest': 'absent'}]
+
+    def cases(self, block, tier):
+        yield dict(block)
+
+    def run_case(self, case):
+        datas = ['first = "writer one"\n' * 3, 'second = "writer two, longer text"\n' * 5]
+        vs = []
+        seen_sigs = set()
+        counters = {'runs': 0, 'steps': 0}
+
+        def make_with(plan):
+            def make():
+                root = scratch()
+                _, fname = make_writer(case['w'], root)
+                d = prepare(root, case['dest'], fname)
+                ctx = {'root': root, 'd': d, 'fname': fname, 'before': faultfs.snapshot(root)}
+
+                def body(tid):
+                    w, _ = make_writer(case['w'], d)
+                    w.putData(MODNAME, datas[tid])
+                    return 'ok'
+
+                sch = sched.Scheduler([body, body])
+                rec = faultfs.Recorder(plan, on_point=lambda site: sch.point(site))
+                ctx['rec'] = rec
+                ctx['patch'] = faultfs.Patched(rec)
+                ctx['patch'].__enter__()
+                return sch, ctx
+            return make
+
+        def finish(run, ctx, choices, plan):
+            ctx['patch'].__exit__()
+            try:
+                after = faultfs.snapshot(ctx['root'])
+                counters['runs'] += 1
+                counters['steps'] += len(ctx['rec'].trace)
+                rel = os.path.relpath(ctx['d'], ctx['root'])
+                key = os.path.normpath(os.path.join(rel, ctx['fname']))
+                content = (after or {}).get(key)
+                old = (ctx['before'] or {}).get(key)
+                ok_writers = [t for t in (0, 1) if t not in run.errors]
+                cleanup_fault = any(s_ in ('os.unlink', 'os.access') for _, s_, f in ctx['rec'].injected)
+                faults = '+'.join('%s=%s' % (s_.split('.')[-1], f) for _, s_, f in ctx['rec'].injected) or 'no-fault'
+                probs = []
+                for t, e in run.errors.items():
+                    if not isinstance(e, error.PySmiWriterError) and not cleanup_fault:
+                        probs.append(('foreign-exception|%s|%s' % (type(e).__name__, faults), repr(e)))
+                allowed = [datas[t].encode() for t in ok_writers] or [old]
+                if content not in allowed:
+                    probs.append(('destination-not-a-complete-text-of-a-successful-writer|%s' % faults,
+                                  'content %r..., writers that returned normally %r, old %r' % ((content or b'')[:30], ok_writers, old)))
+                if not cleanup_fault:
+                    for k in sorted(after or {}):
+                        if os.path.normpath(os.path.dirname(k.rstrip('/'))) == os.path.normpath(rel) and '__pycache__' not in k \
+                                and os.path.normpath(k.rstrip('/')) != key:
+                            probs.append(('stray-entry-left-behind|%s' % faults, 'entry %s' % k))
+                for p_, d_ in probs:
+                    sig = 'C13|two-writers-fault|%s|%s|%s' % (case['w'].split('.')[0], case['dest'], p_)
+                    if sig not in seen_sigs:
+                        seen_sigs.add(sig)
+                        vs.append((sig, '%s\nschedule %r plan %r\ntrace %r' % (d_, choices, plan, ctx['rec'].trace)))
+                return list(ctx['rec'].trace)
+            finally:
+                shutil.rmtree(ctx['root'], ignore_errors=True)
+
+        # 1. fault-free schedules with at most two preemptions; 2. each of them again with one fault at every position
+        schedules = []
+
+        def collect(run, ctx, choices):
+            trace = finish(run, ctx, choices, {})
+            schedules.append((choices, trace))
+
+        for _ in sched.explore(make_with({}), collect, bound=2):
+            pass
+        for choices, trace in schedules:
+            for i, site in enumerate(trace):
+                for f in applicable(site):
+                    plan = {i: f}
+                    sch, ctx = make_with(plan)()
+                    run = sch.execute(choices)
+                    finish(run, ctx, choices, plan)
+        return 'schedules=%d runs=%d' % (len(schedules), counters['runs']), vs, (counters['steps'], counters['runs'])
+
+
+FAMILIES = [SingleWriter(), DryRun(), TwoWriters(), TwoWritersOneFault()]
